@@ -150,9 +150,14 @@ IPv4Reassembler::PacketStatus IPv4Reassembler::process(PDU& pdu) {
 }
 
 IPv4Reassembler::key_type IPv4Reassembler::make_key(const IP* ip) const {
+    return make_key(ip->id(), ip->src_addr(), ip->dst_addr(), ip->protocol());
+}
+
+IPv4Reassembler::key_type IPv4Reassembler::make_key(uint16_t id, IPv4Address src, IPv4Address dst, 
+                                                    uint8_t protocol) const {
     return make_pair(
-        ip->id(),
-        make_address_pair(ip->src_addr(), ip->dst_addr())
+        id,
+        make_pair(make_address_pair(src, dst), protocol)
     );
 }
 
@@ -167,11 +172,10 @@ void IPv4Reassembler::clear_streams() {
 }
 
 void IPv4Reassembler::remove_stream(uint16_t id, IPv4Address addr1, IPv4Address addr2) {
+    // Streams of every protocol that share this identifier and address pair
     streams_.erase(
-        make_pair(
-            id, 
-            make_address_pair(addr1, addr2)
-        )
+        streams_.lower_bound(make_key(id, addr1, addr2, 0)),
+        streams_.upper_bound(make_key(id, addr1, addr2, 0xff))
     );
 }
 
